@@ -18,7 +18,7 @@ from props import seqlib as S
 def oracle(case):
     """None if the property holds on the implementation for this case, else (clause, message)."""
     obj, out = S.observe(case)
-    V, L, N = case["V"], case["L"], out["N"]
+    V, L, N = out["eff"]["V"], out["eff"]["L"], out["N"]     # after the re-enumeration steps, if any
     arcset = {k for k, _ in out["arcs"]}
     ref = S.classify(arcset, V, L, N)
     free = [t for t, val in ref.items() if val is None]
@@ -74,9 +74,9 @@ def shrink(case, clause):
     changed = True
     while changed:
         changed = False
-        for key in ("ops1", "ops0"):
-            for i in range(len(cur[key])):
-                if cur[key][i][0] != "arc":
+        for key in ("ops1", "ops0", "post"):
+            for i in range(len(cur.get(key, []))):
+                if key != "post" and cur[key][i][0] != "arc":
                     continue
                 cand = dict(cur)
                 cand[key] = cur[key][:i] + cur[key][i + 1:]
@@ -128,6 +128,10 @@ def run_part(ctx, n_cases=None):
         case = S.gen_case(rng)
         if not ctx.quick and k % 25 == 0:
             case["L"] = rng.choice([0, 1])              # degenerate lengths (thorough tier only)
+        if k % 5 in (1, 3):
+            # re-enumeration stream: enumerate, change the problem through the API (rebuild requested), compare
+            # the maps of the CHANGED instance
+            case["post"] = S.gen_post(rng, case)
         res = oracle(case)
         if res and res[0] not in reported:
             reported.add(res[0])
@@ -139,14 +143,18 @@ def run_part(ctx, n_cases=None):
         cases.append((case, out))
         terms.append(S.case_lit(case, out))
         arcset = {kk for kk, _ in out["arcs"]}
-        rc = which_rules(arcset, case["V"], case["L"], out["N"])
+        eff = S.effective(case, out)
+        for st in out["post_done"]:
+            dist["re-enumeration after " + st] += 1
+        dist["re-enumerated instances" if case["post"] else "instances enumerated once"] += 1
+        rc = which_rules(arcset, eff["V"], eff["L"], out["N"])
         rules.update(rc)
         dist[f"kind={case['kind']}"] += 1
-        dist[f"V={case['V']}"] += 1
-        dist[f"L={case['L']}"] += 1
+        dist[f"V={eff['V']}"] += 1
+        dist[f"L={eff['L']}"] += 1
         dist[f"N={out['N']}"] += 1
         dist["strict" if case["strict"] else "non-strict"] += 1
-        key = repr((case["strict"], case["ops0"], case["ops1"], case["V"], case["L"]))
+        key = repr((case["strict"], case["ops0"], case["ops1"], case["V"], case["L"], case["post"]))
         if key not in seen and out["n"] > 0 and (rc["rule3 no arc from depot"] or rc["rule6 no arc back to depot"]):
             seen.add(key)
             ctx.count(nontrivial=1)
@@ -155,7 +163,9 @@ def run_part(ctx, n_cases=None):
     ctx.cov.setdefault("input_distribution", {})["sequence"] = dict(sorted(dist.items()))
     rule_txt = ("sequence half: random construction histories (graph handed to the constructor, arcs added through the object, "
                 "everything through the object, no depot call, depot moved after arcs), 1-4 customers, arc density 0.2-1, "
-                "V in 0..3, L in 2..5 (0, 1 in the thorough tier), strict and non-strict; every tuple of V x L x N plus six "
+                "V in 0..3, L in 2..5 (0, 1 in the thorough tier), strict and non-strict; 40 % of the instances are enumerated, then "
+                "changed through the API (make_feasible, add_arc + reset_build_flags, set_max_vehicles / set_max_sequence_length + "
+                "reset_build_flags) and re-enumerated before the comparison; every tuple of V x L x N plus six "
                 "out-of-range tuples and every index 0..n+2 is looked up; non-trivial = distinct case with n > 0 in which a "
                 "depot-adjacency rule (3 or 6) fixes something")
     ctx.cov["rule"] = (ctx.cov.get("rule", "") + " | " if ctx.cov.get("rule") else "") + rule_txt
@@ -169,7 +179,7 @@ def run_part(ctx, n_cases=None):
         mism = []                 # the breakage is already reported with a concrete failing input
     for idx, tags in mism[:1]:
         case, out = cases[idx]
-        model = ctx.coq_eval(S.HEADER, "match " + S.inst_term(case) +
+        model = ctx.coq_eval(S.HEADER, "match " + S.inst_term(S.effective(case, out)) +
                              " with Ok J => (vars J, fixed_items J, num_variables J) | Err _ => ([], [], 0%nat) end")
         ctx.violation("correspondence/seq/" + "+".join(S.TAGS.get(t, str(t)).split(" ")[0] for t in tags),
                       "model and implementation disagree on " + ", ".join(S.TAGS.get(t, str(t)) for t in tags) +
@@ -183,6 +193,6 @@ def run_part(ctx, n_cases=None):
 def replay(ctx, data):
     r = data["replay"]
     case = r["case"]
-    for key in ("ops0", "ops1"):
-        case[key] = [tuple(float("inf") if x == "inf" or x == float("inf") else x for x in o) for o in case[key]]
+    for key in ("ops0", "ops1", "post"):
+        case[key] = [tuple(float("inf") if x == "inf" or x == float("inf") else x for x in o) for o in case.get(key, [])]
     print(oracle(case))
